@@ -43,7 +43,18 @@ def regen_constants():
         return False, (r.stdout + r.stderr).strip()
     for f in ('Consts.lean', 'Enums.lean'):
         write_if_changed(os.path.join(LEAN, 'DnsVerif', 'Generated', f), open(os.path.join(tmp, f)).read())
-    return True, r.stdout.strip()
+    # the translator for the straight-line record readers / writers and the framing functions (Generated/Steps.lean)
+    msg2 = ''
+    try:
+        r2 = subprocess.run([sys.executable, os.path.join(VERIF, 'tools', 'extract_steps.py'), REPO, tmp], capture_output=True, text=True, timeout=120)
+        if r2.returncode == 0:
+            write_if_changed(os.path.join(LEAN, 'DnsVerif', 'Generated', 'Steps.lean'), open(os.path.join(tmp, 'Steps.lean')).read())
+            msg2 = '; ' + r2.stdout.strip()
+        else:
+            msg2 = '; extract_steps failed: ' + (r2.stdout + r2.stderr).strip()[-300:]
+    except Exception as e:
+        msg2 = '; extract_steps failed: %s' % e
+    return True, r.stdout.strip() + msg2
 
 def lake_build(targets):
     t0 = time.time()
@@ -69,18 +80,20 @@ def theorem_names(prop_id):
             names.append('.'.join(cur + [m.group(1)]))
     return names
 
-def axiom_audit(prop_id):
-    """#print axioms for every theorem of Props.<id>; returns {theorem: [axioms]} or raises"""
-    names = theorem_names(prop_id)
+def axiom_audit(prop_id, names=None):
+    """#print axioms for every theorem of Props.<id> (or the given ones); returns {theorem: [axioms]} or raises"""
+    if names is None: names = theorem_names(prop_id)
     if not names:
         return {}
     os.makedirs(os.path.join(WORK, 'audit'), exist_ok=True)
-    f = os.path.join(WORK, 'audit', 'Audit_%s.lean' % prop_id)
+    f = os.path.join(WORK, 'audit', 'Audit_%s.%d.lean' % (prop_id, os.getpid()))
     with open(f, 'w') as fh:
         fh.write('import DnsVerif.Props.%s\n' % prop_id)
         for n in names:
             fh.write('#print axioms %s\n' % n)
     r = subprocess.run(['lake', 'env', 'lean', f], cwd=LEAN, capture_output=True, text=True, env=ENV)
+    try: os.remove(f)
+    except OSError: pass
     out = r.stdout + r.stderr
     res = {}
     for m in re.finditer(r"'([^']+)' depends on axioms: \[([^\]]*)\]", out, re.S):
